@@ -66,6 +66,9 @@ def _worker(job):
         if kind == "Find":
             ops = ops_of(c[1], c[2])
             return lambda: sgs.FindSpaceGroup(ops)
+        if kind == "FindIdx":
+            ops = list(SGL[c[1]].symop_list)
+            return lambda: sgs.FindSpaceGroup(ops)
         if kind == "FindShuffle":
             ops = ops_of(c[1], c[2])
             return lambda: sgs.FindSpaceGroup(ops, shuffle=True)
@@ -120,6 +123,8 @@ def _worker(job):
                 k1 = b.replace(" ", "")
                 cands += [k1[:1].upper() + k1[1:].lower(), b[:1].upper() + b[1:].lower()]
             return "id", cands
+        if c[0] == "FindIdx":
+            return "hash", [sgs._hashSymOpList(SGL[c[1]].symop_list)]
         return "hash", [sgs._hashSymOpList(ops_of(c[1], c[2]))]
 
     def observe(threads_calls):
@@ -133,7 +138,14 @@ def _worker(job):
                 for key, v in list(t.items())[:50]:
                     if full[k].get(key) is not v:
                         wrong += 1
-            obs[k] = [cls, n, wrong]
+            miss = None
+            if cls == "partial":
+                # directed search: a lookup whose key is not yet in the partially filled table
+                absent = [key for key in full[k] if key not in t]
+                if absent:
+                    key = absent[-1]
+                    miss = ["Get", key] if k == "id" else ["FindIdx", pos_of[id(full[k][key])]]
+            obs[k] = [cls, n, wrong, miss]
         pres = []
         for c in threads_calls:
             tag, cands = probe_key(c)
@@ -322,8 +334,8 @@ def run(ck):
     # calls ---------------------------------------------------------------------------
     id_builders = [["Get", 225]] if quick else [["Get", 225], ["Get", "Fm-3m"], ["Is", " p 21/c "]]
     hash_builders = [["Find", 225, "same"]] if quick else [["Find", 225, "same"], ["Find", 62, "reversed"]]
-    readers_q = [["Get", "Fm-3m"], ["Get", 225], ["Get", "Ia3d"], ["Find", 62, "same"]]   # 'Ia3d' is the last alias stored
-    readers_t = readers_q + [["Is", "P 1 21/c 1"], ["Get", "no such group"], ["Find", 225, "reversed"]]
+    readers_q = [["Get", "Fm-3m"], ["Get", 225], ["Get", "Ia3d"], ["FindIdx", -1]]   # last alias stored, last setting stored
+    readers_t = readers_q + [["Find", 62, "same"], ["Is", "P 1 21/c 1"], ["Get", "no such group"], ["Find", 225, "reversed"]]
     readers = readers_q if quick else readers_t
 
     schedules, tags = [], []
@@ -375,6 +387,27 @@ def run(ck):
 
     t0 = time.time()
     meta, runs = run_jobs(schedules, nproc=14)
+    # directed second round: wherever a partially filled table was observed, look up a key that was absent
+    extra, seen = [], set()
+    for s_, tg, r in zip(schedules, tags, runs):
+        for j, o in enumerate(r["obs"]):
+            for t in ("id", "hash"):
+                if o[t][0] == "partial" and o[t][3] and len(extra) < 60:
+                    k_ = (json.dumps(tg[1]), json.dumps(o[t][3]))
+                    if k_ in seen:
+                        continue
+                    seen.add(k_)
+                    nthr = len(s_["threads"])
+                    extra.append(({"threads": s_["threads"] + [o[t][3]], "traced": s_["traced"] + [0],
+                                   "segs": s_["segs"][:j + 1] + [[nthr, -1]] + s_["segs"][j + 1:]},
+                                  ("directed", tg[1], o[t][3], tg[3])))
+    if extra:
+        m2, r2 = run_jobs([e[0] for e in extra], nproc=14)
+        for k_ in ("seq_first", "seq_warm", "keypos"):
+            meta[k_].update(m2[k_])
+        schedules += [e[0] for e in extra]
+        tags += [e[1] for e in extra]
+        runs += r2
     ck.notes.append("%d schedules on the real code in %.1fs; pre-emption points per builder: %r; K=%r" % (
         len(schedules), time.time() - t0, npts, meta["K"]))
 
